@@ -11,11 +11,35 @@ func RemoveMatchComments(file *ast.File, pattern *regexp.Regexp) {
 	for _, group := range file.Comments {
 		_ = ExtractMatchComments(group, pattern)
 	}
-	// A package doc comment that lost all of its lines has no position any more
-	// (ast.CommentGroup.Pos panics on an empty group) and must not stay attached.
-	if file.Doc != nil && len(file.Doc.List) == 0 {
-		file.Doc = nil
+	// A doc comment that lost all of its lines has no position any more
+	// (ast.CommentGroup.Pos panics on an empty group) and must not stay attached,
+	// be it the package doc comment or that of any declaration, spec or field.
+	detach := func(groups ...**ast.CommentGroup) {
+		for _, g := range groups {
+			if *g != nil && len((*g).List) == 0 {
+				*g = nil
+			}
+		}
 	}
+	ast.Inspect(file, func(node ast.Node) bool {
+		switch n := node.(type) {
+		case *ast.File:
+			detach(&n.Doc)
+		case *ast.GenDecl:
+			detach(&n.Doc)
+		case *ast.FuncDecl:
+			detach(&n.Doc)
+		case *ast.TypeSpec:
+			detach(&n.Doc, &n.Comment)
+		case *ast.ValueSpec:
+			detach(&n.Doc, &n.Comment)
+		case *ast.ImportSpec:
+			detach(&n.Doc, &n.Comment)
+		case *ast.Field:
+			detach(&n.Doc, &n.Comment)
+		}
+		return true
+	})
 }
 
 // MatchComments reports whether any comment line in commentGroup contains
